@@ -5,6 +5,9 @@
   `BITS = 64 * a.length`, `2^BITS = B ^ a.length`.
 -/
 import CB.Lemmas.C05Wide
+import CB.Lemmas.C05Query
+import CB.Lemmas.C05Int
+import CB.Lemmas.C05Boxed
 namespace CB.P05
 open CB CB.Shift CB.Bits
 
@@ -198,5 +201,194 @@ theorem boxed_bitops_spec {a b : List Nat} (ha : WF a) (hb : WF b) :
 -/
 /-- T05.6n (negative) `BoxedUint |= wider` drops the high limbs of the right-hand side. -/
 theorem or_assign_truncates : val (orAssign [15] [1, 1]) ≠ val [15] ||| val [1, 1] := by decide
+
+/-! ## T05.5 bit length, leading / trailing counts, bit test, bit set; ct = vartime
+
+`bitlen x` is the position of the top set bit + 1 (`Nat.log2 x + 1`, and 0 for 0). -/
+
+theorem bitlen_meaning (x : Nat) :
+    bitlen x = (if x = 0 then 0 else Nat.log2 x + 1) ∧ x < 2 ^ bitlen x ∧
+    (x ≠ 0 → 2 ^ (bitlen x - 1) ≤ x) :=
+  ⟨rfl, lt_two_pow_bitlen x, two_pow_bitlen_le⟩
+
+/-- T05.5a `bits`, `bits_vartime`, `leading_zeros`, `leading_zeros_vartime`. -/
+theorem bits_spec {a : List Nat} (ha : WF a) (hne : a ≠ []) :
+    ubits a = bitlen (val a) ∧ bitsVartime a = some (ubits a) ∧
+    leadingZeros a = 64 * a.length - bitlen (val a) ∧
+    leadingZerosVartime a = some (leadingZeros a) := by
+  have h1 := ubits_spec ha
+  have h2 := bitsVartime_spec ha hne
+  have h3 := leadingZeros_spec ha
+  refine ⟨h1, by rw [h1, h2], h3, ?_⟩
+  unfold leadingZerosVartime; rw [h2, h3]; rfl
+
+/-- T05.5b `trailing_zeros` = `trailing_zeros_vartime` = the number of zero bits below the lowest set
+    bit (`BITS` for 0). -/
+theorem trailing_zeros_spec {a : List Nat} (ha : WF a) :
+    trailingZeros a = trailingZerosVartime a ∧ trailingZeros a ≤ 64 * a.length ∧
+    (∀ j, j < trailingZeros a → (val a).testBit j = false) ∧
+    (trailingZeros a < 64 * a.length → (val a).testBit (trailingZeros a) = true) := by
+  rw [trailingZeros_eq_vartime ha]
+  exact ⟨rfl, trailingZerosVartime_spec ha⟩
+
+/-- T05.5c `trailing_ones` = `trailing_ones_vartime` = the length of the run of ones from bit 0. -/
+theorem trailing_ones_spec {a : List Nat} (ha : WF a) :
+    trailingOnes a = trailingOnesVartime a ∧ trailingOnes a ≤ 64 * a.length ∧
+    (∀ j, j < trailingOnes a → (val a).testBit j = true) ∧
+    (trailingOnes a < 64 * a.length → (val a).testBit (trailingOnes a) = false) := by
+  rw [trailingOnes_eq_vartime ha]
+  exact ⟨rfl, trailingOnesVartime_spec ha⟩
+
+/-- T05.5d `bit i` (constant-time scan) and `bit_vartime i` are `testBit` of the value for every index
+    (false beyond the width). -/
+theorem bit_spec {a : List Nat} (ha : WF a) (hn : a.length ≤ TWO32) {i : Nat} (hi : i < TWO32) :
+    bitCt a i = mask ((val a).testBit i) ∧ bitVartime a i = (val a).testBit i :=
+  ⟨bitCt_spec ha hn hi, bitVartime_spec ha i⟩
+
+/-- T05.5e `set_bit`: bit `i` becomes `v` when `i < BITS`, nothing else changes; unchanged for `i ≥ BITS`. -/
+theorem set_bit_spec {a : List Nat} (ha : WF a) (hn : a.length ≤ TWO32) {i : Nat} (hi : i < TWO32)
+    (v : Bool) (j : Nat) :
+    (val (setBit a i (mask v))).testBit j = if j = i ∧ i < 64 * a.length then v else (val a).testBit j :=
+  setBit_testBit ha hn hi v j
+
+/-
+  FULL STATEMENT (unproved — FALSE of the code as written, finding C05-set-bit-vartime-oob):
+    `setBitVartime a i v = some (setBit a i (mask v))` for every index `i`.
+  Proved: it holds for `i < BITS`; for `i ≥ BITS` the vartime form panics (`none`) while the
+  constant-time form returns the value unchanged.
+-/
+theorem set_bit_vartime_partial {a : List Nat} (ha : WF a) (hn : a.length ≤ TWO32) {i : Nat} (hi : i < TWO32)
+    (v : Bool) (H_in_range : i < 64 * a.length) :
+    setBitVartime a i v = some (setBit a i (mask v)) := (setBit_vs_vartime ha hn hi v).1 H_in_range
+
+/-- T05.5n (negative) for `i ≥ BITS`: `set_bit` is a no-op, `set_bit_vartime` PANICS. -/
+theorem set_bit_vartime_oob_panics {a : List Nat} (ha : WF a) (hn : a.length ≤ TWO32) {i : Nat} (hi : i < TWO32)
+    (v : Bool) (h : 64 * a.length ≤ i) :
+    setBit a i (mask v) = a ∧ setBitVartime a i v = none := (setBit_vs_vartime ha hn hi v).2 h
+
+example : ubits [0, 1, 0] = 65 ∧ trailingZeros [0, 1, 0] = 64 ∧ trailingOnes [WMAX, 1, 0] = 65 := by decide
+
+/-! ## T05.4 `Int` arithmetic right shift
+
+`toInt a` = two's complement reading of the limbs; `/` on `Int` with a positive divisor is the floor. -/
+
+theorem toInt_meaning (a : List Nat) :
+    toInt a = if B ^ a.length ≤ 2 * val a then (val a : Int) - ((B ^ a.length : Nat) : Int) else (val a : Int) :=
+  rfl
+
+/-- T05.4a `Int::overflowing_shr_vartime` (sign limb fill + the `carry ^ (carry >> rem)` trick):
+    `is_some` exactly when `s < BITS`; the value is `⌊x / 2^s⌋` on the signed value for EVERY `s`
+    (for `s ≥ BITS` the dummy value is the sign fill, i.e. `-1` or `0`, which is still the floor). -/
+theorem int_shr_vartime_spec {a : List Nat} (ha : WF a) (hne : a ≠ []) (s : Nat) :
+    (intOverflowingShrVartime a s).2 = mask (decide (s < 64 * a.length)) ∧
+    toInt (intOverflowingShrVartime a s).1 = toInt a / ((2 ^ s : Nat) : Int) ∧
+    (intOverflowingShrVartime a s).1.length = a.length ∧ WF (intOverflowingShrVartime a s).1 := by
+  have hv := intShrV_val ha hne s
+  refine ⟨?_, (toInt_intShrV ha hne s).1, hv.2.1, hv.2.2⟩
+  by_cases h : s < 64 * a.length
+  · rw [(intShrV_inrange ha hne h).1]; simp [h, mask]
+  · rw [intShrV_overflow a (Nat.not_lt.mp h)]; simp [h, mask]
+
+/-- T05.4b the ladder form `Int::overflowing_shr`: never panics, `is_some` iff `s < BITS`, and then the
+    value is the vartime result. -/
+theorem int_shr_ladder_spec {a : List Nat} (ha : WF a) (hn0 : a ≠ []) (hn : 64 * a.length < TWO32)
+    {s : Nat} (hs : s < TWO32) :
+    ∃ v, intOverflowingShr a s = some (v, mask (decide (s < 64 * a.length))) ∧
+      (s < 64 * a.length → v = (intOverflowingShrVartime a s).1) := by
+  refine ⟨_, intOverflowingShr_spec ha hn0 hn hs, fun h => ?_⟩
+  rw [Nat.mod_eq_of_lt h]
+
+/-- T05.4c `Int::shr` / `shr_vartime` panic exactly for `s ≥ BITS`; the wrapping forms never panic and
+    return `⌊x / 2^s⌋` for every `s` (the sign fill for `s ≥ BITS`); ct = vartime. -/
+theorem int_shr_forms {a : List Nat} (ha : WF a) (hn0 : a ≠ []) (hn : 64 * a.length < TWO32)
+    {s : Nat} (hs : s < TWO32) :
+    intShr a s = intShrVartime a s ∧
+    (64 * a.length ≤ s → intShr a s = none) ∧
+    (s < 64 * a.length → intShr a s = some (intOverflowingShrVartime a s).1) ∧
+    intWrappingShr a s = some (intWrappingShrVartime a s) ∧
+    toInt (intWrappingShrVartime a s) = toInt a / ((2 ^ s : Nat) : Int) := by
+  have hsp := intOverflowingShr_spec ha hn0 hn hs
+  have hv := intShrV_val ha hn0 s
+  have hvm := intShrV_val ha hn0 (s % (64 * a.length))
+  have hsf : WF (signFill a) ∧ (signFill a).length = a.length := by
+    have := signFill_val ha hn0 (Nat.le_refl _); exact ⟨this.2.2, this.2.1⟩
+  by_cases h : s < 64 * a.length
+  · have hin := intShrV_inrange ha hn0 h
+    have hwv : intWrappingShrVartime a s = (intOverflowingShrVartime a s).1 := by
+      unfold intWrappingShrVartime unwrapOr
+      rw [hin.1]; exact uselect_spec true hsf.1 hv.2.2 (by rw [hsf.2, hv.2.1])
+    have e1 : intShr a s = some (intOverflowingShrVartime a s).1 := by
+      unfold intShr; rw [hsp, Nat.mod_eq_of_lt h]; simp [h, mask, expect]
+    have e2 : intShrVartime a s = some (intOverflowingShrVartime a s).1 := by
+      unfold intShrVartime; exact expect_mk hin.1
+    refine ⟨by rw [e1, e2], fun h' => absurd h (Nat.not_lt.mpr h'), fun _ => e1, ?_, ?_⟩
+    · unfold intWrappingShr; rw [hsp, Nat.mod_eq_of_lt h, hwv]
+      simp only [Option.map_some, h, decide_true]
+      congr 1
+      exact uselect_spec true hsf.1 hv.2.2 (by rw [hsf.2, hv.2.1])
+    · rw [hwv]; exact (toInt_intShrV ha hn0 s).1
+  · have h' := Nat.not_lt.mp h
+    have hov := intShrV_overflow a h'
+    have hwv : intWrappingShrVartime a s = signFill a := by
+      unfold intWrappingShrVartime unwrapOr
+      rw [hov]; exact uselect_spec false hsf.1 hsf.1 rfl
+    have e1 : intShr a s = none := by
+      unfold intShr; rw [hsp]; simp [h, mask, expect, WMAX_def]
+    have e2 : intShrVartime a s = none := by
+      unfold intShrVartime; rw [hov]; exact expect_none rfl
+    refine ⟨by rw [e1, e2], fun _ => e1, fun h'' => absurd h'' h, ?_, ?_⟩
+    · unfold intWrappingShr; rw [hsp, hwv]
+      simp only [Option.map_some, h, decide_false]
+      congr 1
+      exact uselect_spec false hsf.1 hvm.2.2 (by rw [hsf.2, hvm.2.1])
+    · rw [hwv]
+      have := (toInt_intShrV ha hn0 s).1
+      rwa [hov] at this
+
+/-- `Int` left shifts are the `Uint` left shifts on the two's complement limbs (src/int/shl.rs forwards),
+    so T05.1/T05.2 apply verbatim. -/
+example : toInt (intOverflowingShrVartime [0, HALF] 65).1 = toInt [0, HALF] / ((2 ^ 65 : Nat) : Int) :=
+  (int_shr_vartime_spec (WF_of_all (by decide)) (by simp) 65).2.1
+
+/-! ## T05.7 `BoxedUint` shifts (any precision ≥ 1 limb) -/
+
+/-- T05.7a `overflowing_shl` / `overflowing_shr` (ladder through `sh?_vartime_into` on a zeroed temp,
+    `ct_assign`, `conditional_set_zero`): value `(x·2^s) mod 2^BITS` resp. `x / 2^s`, zero on overflow,
+    overflow flag exactly when `s ≥ BITS`; precision preserved. -/
+theorem boxed_overflowing_spec {a : List Nat} (ha : WF a) (hn0 : a ≠ []) (hn : 64 * a.length ≤ TWO32)
+    (s : Nat) :
+    (∃ r, boxedOverflowingShl a s = some (r, decide (64 * a.length ≤ s)) ∧
+      val r = (val a * 2 ^ s) % B ^ a.length ∧ r.length = a.length ∧ WF r) ∧
+    (∃ r, boxedOverflowingShr a s = some (r, decide (64 * a.length ≤ s)) ∧
+      val r = val a / 2 ^ s ∧ r.length = a.length ∧ WF r) :=
+  ⟨⟨_, boxedOverflowingShl_spec ha hn0 hn s, shlV_val ha s⟩,
+   ⟨_, boxedOverflowingShr_spec ha hn0 hn s, shrV_val ha s⟩⟩
+
+/-- T05.7b `shl_vartime` / `shr_vartime` return `None` exactly when `s ≥ BITS`, else the same value as the
+    constant-time form; the boxed right shift's ascending carry pass equals the descending one. -/
+theorem boxed_vartime_spec {a : List Nat} (ha : WF a) (s : Nat) :
+    boxedShlVartime a s = (if s < 64 * a.length then some (overflowingShlVartime a s).1 else none) ∧
+    boxedShrVartime a s = (if s < 64 * a.length then some (overflowingShrVartime a s).1 else none) ∧
+    val (boxedWrappingShlVartime a s) = (val a * 2 ^ s) % B ^ a.length ∧
+    val (boxedWrappingShrVartime a s) = val a / 2 ^ s := by
+  refine ⟨boxedShlInto_zero a s, boxedShrInto_zero a s, ?_, ?_⟩
+  · unfold boxedWrappingShlVartime; rw [boxedShlInto_zero]
+    by_cases h : s < 64 * a.length
+    · simp only [h, if_true, Option.getD_some]; exact (shlV_val ha s).1
+    · simp only [h, if_false, Option.getD_none, val_uzero, shl_overflow_zero _ (Nat.not_lt.mp h)]
+  · unfold boxedWrappingShrVartime; rw [boxedShrInto_zero]
+    by_cases h : s < 64 * a.length
+    · simp only [h, if_true, Option.getD_some]; exact (shrV_val ha s).1
+    · simp only [h, if_false, Option.getD_none, val_uzero, shr_overflow_zero ha (Nat.not_lt.mp h)]
+
+/-- T05.7c `BoxedUint::shl` / `shr` (`assert!(!overflow)`): panic exactly when `s ≥ BITS`. -/
+theorem boxed_shl_shr_spec {a : List Nat} (ha : WF a) (hn0 : a ≠ []) (hn : 64 * a.length ≤ TWO32) (s : Nat) :
+    boxedShl a s = (if s < 64 * a.length then some (overflowingShlVartime a s).1 else none) ∧
+    boxedShr a s = (if s < 64 * a.length then some (overflowingShrVartime a s).1 else none) := by
+  unfold boxedShl boxedShr
+  rw [boxedOverflowingShl_spec ha hn0 hn, boxedOverflowingShr_spec ha hn0 hn]
+  by_cases h : s < 64 * a.length
+  · simp [h, Nat.not_le.mpr h]
+  · simp [h, Nat.not_lt.mp h]
 
 end CB.P05
